@@ -328,14 +328,27 @@ def check_paging(F, G7):
             continue
         lbody = loops[hd]
         exams = {}
+        E2 = ExprBuilder(cfg, fold_named=True)    # `let cur = i; .. msgs[cur]` examines position i as well
+
+        def is_counter(op):
+            if E.operand(op) == ('place', counter) or E2.operand(op) == ('place', counter):
+                return True
+            # `let idx = if filtered { table[cur] } else { cur }`: one definition of the index local is the counter itself
+            if op.place is not None and op.place.is_local:
+                l = op.place.l
+                sd = cfg.single_def(l)
+                if sd is not None and sd[1] != 'call' and sd[2].rv['k'] == 'use' and Operand(sd[2].rv['o']).place is not None and Operand(sd[2].rv['o']).place.is_local:
+                    l = Operand(sd[2].rv['o']).place.l
+                ds = cfg.defs.get(l, [])
+                if len(ds) > 1:
+                    return any(si != 'call' and d.rv['k'] == 'use' and E2.rvalue(d.rv) == ('place', counter) for (bi_, si, d) in ds)
+            return False
         for blk_i in lbody:
             blk = b.blocks[blk_i]
             t = blk.term
-            if t.k == 'assert' and t.d['ak'] == 'BoundsCheck':
-                ix = E.operand(Operand(t.d['ops'][1]))
-                if ix == ('place', counter):
-                    exams[blk_i] = hd
-            if t.k == 'call' and t.callee.path == 'std::ops::Index::index' and len(t.args) > 1 and E.operand(t.args[1]) == ('place', counter):
+            if t.k == 'assert' and t.d['ak'] == 'BoundsCheck' and is_counter(Operand(t.d['ops'][1])):
+                exams[blk_i] = hd
+            if t.k == 'call' and t.callee.path == 'std::ops::Index::index' and len(t.args) > 1 and is_counter(t.args[1]):
                 exams[blk_i] = hd
         if not exams:
             continue
